@@ -400,20 +400,32 @@ func (c19) Exec(sc *sim.Scenario, env *sim.Env) *sim.Violation {
 	// accept everything, track pc/labels/flags like a real emitter, and leave the parent alone
 	{
 		half := len(ops) / 2
-		pt, pguard := mkTarget(total+16, true)
-		parent := asm.NewEmitter(pt, gentext)
+		// the reference emitter first: its length after the first half sizes the parent's
+		// buffer, which leaves 0, 1, 4 or plenty of bytes of room behind the first half
 		ref := asm.NewEmitter(make([]byte, total+16), gentext)
+		var refPanics []bool
+		for _, op := range ops[:half] {
+			if op.K == "clone" || op.K == "append" {
+				continue
+			}
+			p2, _ := asmApply(ref, op)
+			refPanics = append(refPanics, p2)
+		}
+		room := []int{0, 1, 4, total + 16}[(sc.Seed>>5)&3]
+		pt, pguard := mkTarget(ref.Len()+room, true)
+		parent := asm.NewEmitter(pt, gentext)
 		ok := true
+		k := 0
 		for _, op := range ops[:half] {
 			if op.K == "clone" || op.K == "append" {
 				continue
 			}
 			p1, _ := asmApply(parent, op)
-			p2, _ := asmApply(ref, op)
-			if p1 != p2 {
+			if p1 != refPanics[k] {
 				ok = false
 				break
 			}
+			k++
 		}
 		if ok {
 			var c *asm.Emitter
@@ -452,6 +464,19 @@ func (c19) Exec(sc *sim.Scenario, env *sim.Env) *sim.Violation {
 				return &sim.Violation{Oracle: "clone_not_isolated", Step: len(ops), Msg: "emitting into Clone(nil) wrote into the parent's target buffer"}
 			}
 			st.Probe("measuring_clone_of_buffered_parent")
+			// handing the measured block back: whatever Append makes of a block without bytes
+			// (accept it or refuse it), the emitted bytes never exceed the capacity
+			sim.RecoverLib(func() { parent.Append(c) })
+			after := snapEmitter(parent)
+			if v := accessorViolation(after, len(ops), sim.Op{K: "append"}); v != nil {
+				return v
+			}
+			if after.Len > after.Cap || len(after.Bytes) != after.Len {
+				return &sim.Violation{Oracle: "len_exceeds_cap", Step: len(ops), Msg: fmt.Sprintf("after Append of a Clone(nil) block (measured %d bytes) into a parent with %d of %d bytes used: Len()=%d Cap()=%d len(Bytes())=%d", int(snapEmitter(c).PC-before.PC), before.Len, before.Cap, after.Len, after.Cap, len(after.Bytes))}
+			}
+			if len(after.Bytes) < before.Len || string(after.Bytes[:before.Len]) != string(before.Bytes) || !guardIntact(pguard) {
+				return &sim.Violation{Oracle: "append_damaged_parent", Step: len(ops), Msg: "Append of a Clone(nil) block changed bytes the parent had emitted, or wrote behind its target"}
+			}
 		}
 	}
 	st.Probe("twin_checked")
